@@ -18,8 +18,17 @@ python3 lib/regen.py
 cd coq
 mkdir -p Extract/out
 coq_makefile -f _CoqProject -o Makefile >/dev/null
-make -j"$(nproc)" >/dev/null 2>coq_build.err || { tail -50 coq_build.err; exit 1; }
+# -k: a file that does not build (work in progress for a property not yet claimed) must not
+# stop the rest; what the claimed checks need is verified right below
+make -k -j"$(nproc)" >/dev/null 2>coq_build.err || { echo "warning: some Coq files did not build:"; grep -E '^File|Error' coq_build.err | head -20; }
 cd ..
+python3 - <<'PY'
+import json, os, sys
+m = json.load(open("MANIFEST.json"))
+missing = [c["property_id"] for c in m["checks"] if not os.path.exists("coq/Properties/%s.vo" % c["property_id"])]
+if missing:
+    print("setup: Coq obligations of claimed properties did not build:", missing); sys.exit(1)
+PY
 # 3. OCaml drivers (each checks/cNN.py lists the (driver, extraction) pairs it uses)
 python3 - <<'PY'
 import sys; sys.path.insert(0, "lib"); sys.path.insert(0, ".")
